@@ -7,11 +7,17 @@
 (* constructs.  Item kinds:                                                *)
 (*   F function header (variants: plain, prefix = modifier/async in front, *)
 (*     multi = header over two lines, nextbrace = brace on the next line,  *)
-(*     bracegroup = parameter list containing brace groups)                *)
-(*   K class   C control statement   E else   A anonymous function         *)
+(*     bracegroup = parameter list containing brace groups, arrow = the    *)
+(*     `const f = (..) => {` form closed by `};`, throws = a throws clause *)
+(*     between header and body, lineabove = a decorator / annotation /     *)
+(*     attribute / template / return-type line above the header)           *)
+(*   K class   C control statement (variants if, loop, try)                *)
+(*   E else / catch / except   A anonymous function                        *)
 (*   X close of the innermost open construct                               *)
-(*   S n simple statements (calls; variant strdelim: string/char literals  *)
-(*     containing braces, parentheses and comment leaders)                 *)
+(*   S n simple statements (calls; variants strdelim: string/char literals *)
+(*     containing braces, parentheses and comment leaders; trailing: a     *)
+(*     trailing comment on the line; inline: a block comment between the   *)
+(*     tokens of the line)                                                 *)
 (*   M multi-line statement (initialiser with a brace group, 3 lines)      *)
 (*   B blank line   R comment-only line                                    *)
 (* Finish computes the ghost exp: for every layout family and every        *)
@@ -28,7 +34,7 @@
 (* exp.                                                                    *)
 (***************************************************************************)
 EXTENDS Naturals, Sequences, FiniteSets, TLC
-CONSTANTS MaxItems, MaxDepth, Reps, FVariants, SVariants,
+CONSTANTS MaxItems, MaxDepth, Reps, FVariants, SVariants, CVariants,
           Allowed      \* item kinds this configuration may use (subset of {"F","K","C","E","A","X","S","M","B","R"})
 
 VARIABLES prog, stack, done, exp
@@ -44,21 +50,29 @@ HasCodeSinceOpen(i) == IF i = 0 THEN FALSE
                        ELSE IF prog[i].k \in Opens \cup {"E"} THEN FALSE
                        ELSE IF prog[i].k \in {"S", "M", "X"} THEN TRUE ELSE HasCodeSinceOpen(i - 1)
 
+(* index of the innermost construct that is still open (0 if none) *)
+RECURSIVE OpenFrom(_, _)
+OpenFrom(i, d) == IF i = 0 THEN 0
+                  ELSE IF prog[i].k = "X" THEN OpenFrom(i - 1, d + 1)
+                  ELSE IF prog[i].k \in Opens THEN (IF d = 0 THEN i ELSE OpenFrom(i - 1, d - 1))
+                  ELSE OpenFrom(i - 1, d)
+OpenItem == OpenFrom(Len(prog), 0)
 Emit(it) == prog' = Append(prog, it)
 Item(k, v, n) == [k |-> k, v |-> v, n |-> n]
 CanOpen == Len(prog) < MaxItems - 1 /\ Depth < MaxDepth
 Room == Len(prog) + Depth < MaxItems                 \* leave room for the closes
 
 FuncHeader == /\ "F" \in Allowed /\ Room /\ CanOpen
-              /\ \E v \in FVariants : Emit(Item("F", v, 1))
+              /\ \E v \in FVariants : (v = "arrow" => Top # "K") /\ Emit(Item("F", v, 1))
               /\ stack' = Append(stack, "F") /\ UNCHANGED <<done, exp>>
 Class      == /\ "K" \in Allowed /\ Room /\ CanOpen /\ Top \in {"top", "F"} /\ Emit(Item("K", "plain", 1))
               /\ stack' = Append(stack, "K") /\ UNCHANGED <<done, exp>>
-Control    == /\ "C" \in Allowed /\ Room /\ CanOpen /\ InFunc /\ Top # "K" /\ Emit(Item("C", "plain", 1))
+Control    == /\ "C" \in Allowed /\ Room /\ CanOpen /\ InFunc /\ Top # "K" /\ \E v \in CVariants : Emit(Item("C", v, 1))
               /\ stack' = Append(stack, "C") /\ UNCHANGED <<done, exp>>
 Anonymous  == /\ "A" \in Allowed /\ Room /\ CanOpen /\ InFunc /\ Top # "K" /\ Emit(Item("A", "plain", 1))
               /\ stack' = Append(stack, "A") /\ UNCHANGED <<done, exp>>
-Else       == /\ "E" \in Allowed /\ Room /\ Top = "C" /\ HasCodeSinceOpen(Len(prog)) /\ Emit(Item("E", "plain", 1))
+Else       == /\ "E" \in Allowed /\ Room /\ Top = "C" /\ HasCodeSinceOpen(Len(prog)) /\ prog[OpenItem].v # "loop"
+              /\ Emit(Item("E", prog[OpenItem].v, 1))
               /\ stack' = [stack EXCEPT ![Len(stack)] = "E"] /\ UNCHANGED <<done, exp>>
 Close      == /\ "X" \in Allowed /\ stack # <<>> /\ HasCodeSinceOpen(Len(prog))
               /\ Emit(Item("X", Top, 1)) /\ stack' = SubSeq(stack, 1, Len(stack) - 1) /\ UNCHANGED <<done, exp>>
@@ -84,21 +98,28 @@ Encl(p) == LET c == { i \in Funcs : i < p /\ p <= CloseOf(i) } IN
 Owner(p) == IF prog[p].k = "F" THEN p ELSE Encl(p)
 Lines(fam, it) == CASE it.k = "S" -> it.n
                     [] it.k = "M" -> 3
-                    [] it.k = "F" -> (IF it.v = "multi" \/ (it.v = "nextbrace" /\ fam # "indent") THEN 2 ELSE 1)
+                    [] it.k = "F" -> (IF it.v \in {"multi", "lineabove"} \/ (it.v = "nextbrace" /\ fam # "indent") THEN 2 ELSE 1)
                     [] it.k = "X" -> (IF fam = "indent" THEN 0 ELSE 1)
                     [] OTHER -> 1
+(* lines of a header item that lie ABOVE the header proper and belong to the enclosing scope *)
+Offset(it) == IF it.k = "F" /\ it.v = "lineabove" THEN 1 ELSE 0
 Code(it) == it.k \notin {"B", "R"}
 RECURSIVE SumLines(_, _, _)
 SumLines(fam, a, b) == IF a > b THEN 0 ELSE Lines(fam, prog[a]) + SumLines(fam, a + 1, b)
-FirstLine(fam, p) == 1 + SumLines(fam, 1, p - 1)
+FirstLine(fam, p) == 1 + SumLines(fam, 1, p - 1) + Offset(prog[p])
 LastLine(fam, p) == SumLines(fam, 1, p)
 RECURSIVE SumSet(_, _)
 SumSet(fam, S) == IF S = {} THEN 0 ELSE LET x == CHOOSE x \in S : TRUE IN Lines(fam, prog[x]) + SumSet(fam, S \ {x})
 (* does the header of function p carry tokens of the enclosing scope in front of it? *)
-HasPrefix(fam, p) == fam = "bracep" \/ prog[p].v = "prefix"
+HasPrefix(fam, p) == (fam = "bracep" /\ prog[p].v # "arrow") \/ prog[p].v = "prefix"
+(* lines of a directly nested function on which a token of the ENCLOSING function begins: the header line when *)
+(* tokens stand in front of the header, the line above, and the `;` that closes an arrow function             *)
+ParentGain(fam, p) == (IF HasPrefix(fam, p) THEN 1 ELSE 0) + Offset(prog[p]) + (IF prog[p].v = "arrow" THEN 1 ELSE 0)
+RECURSIVE SumGain(_, _)
+SumGain(fam, S) == IF S = {} THEN 0 ELSE LET x == CHOOSE x \in S : TRUE IN ParentGain(fam, x) + SumGain(fam, S \ {x})
 OwnLen(fam, f) == LET own == { p \in f..CloseOf(f) : Code(prog[p]) /\ Owner(p) = f }
-                      pre == { p \in Funcs : p > f /\ Encl(p) = f /\ HasPrefix(fam, p) }
-                  IN  SumSet(fam, own) + Cardinality(pre)
+                      kids == { p \in Funcs : p > f /\ Encl(p) = f }
+                  IN  SumSet(fam, own) - Offset(prog[f]) + SumGain(fam, kids)
 LastCode(fam, f) == LET c == { p \in f..CloseOf(f) : Code(prog[p]) /\ Lines(fam, prog[p]) > 0 }
                     IN  CHOOSE p \in c : \A q \in c : q <= p
 Expected(fam) == [ f \in Funcs |-> [ start |-> FirstLine(fam, f),
